@@ -98,7 +98,10 @@ class _Mem(io.BytesIO):
 
 
 class SimFS:
-    def __init__(self, files=None, cwd=PREFIX, faults=None):
+    def __init__(self, files=None, cwd=PREFIX, faults=None, default_encoding="utf-8"):
+        # what open() uses when the caller names no encoding: the platform's locale encoding. Simulating a
+        # non-UTF-8 locale (cp1252 is what Windows gives) exposes any library open() that forgot encoding=
+        self.default_encoding = default_encoding
         self.files = {}  # path -> bytes
         self.dirs = {PREFIX}
         for p, data in (files or {}).items():
@@ -202,7 +205,7 @@ class SimFS:
         self.open_handles += 1
         if "b" in mode:
             return raw
-        return io.TextIOWrapper(raw, encoding=encoding or "utf-8", errors=errors, newline=newline, write_through=True)
+        return io.TextIOWrapper(raw, encoding=encoding or self.default_encoding, errors=errors, newline=newline, write_through=True)
 
     def stat(self, path, real, **kw):
         """os.stat / os.lstat seam (os.path.exists / isfile / isdir go through it)."""
